@@ -393,6 +393,11 @@ def check_property(prop, tier, configs=None, only=None, keep=False, write_eviden
                 cc = copy.copy(ob.contract)
                 cc.defines = [dd for dd in (cc.defines or []) if not dd.endswith('_UF')]
                 cc.flags = list(cc.flags or []) + ['mul']
+                # only the post-conditions that failed (smaller query: one lane's multipliers instead of all)
+                idx = sorted({int(m.group(1)) for p in failed_props(ob) for m in [re.search(r'\.postcondition\.(\d+)$', p.get('name') or '')] if m})
+                keep = [cc.ensures[i - 1] for i in idx if 0 < i <= len(cc.ensures)]
+                if keep:
+                    cc.ensures = keep[:2]
                 cob = P.build_obligation(prop, ob.cfgs[0], dbs[ob.cfgs[0]], ob.fn, cc, getattr(ob, 'repl_contracts', None))
                 cob.cfgs = list(ob.cfgs)
                 P.run_obligations([cob], sc, tier, progress=False)
